@@ -252,6 +252,10 @@ class Checker(CommandMixin):
             else:
                 self._quiet_event(ev, "timer")
         elif kind == "bulk":
+            for e in ev.errors:
+                if e.get("kind") == "internal_error":
+                    self.v("C04", "claims-complete", ev, "claiming a free nameplate failed internally: %s %s at %s"
+                           % (e.get("type"), e.get("text"), e.get("where")))
             self._track_incarnations(ev.pre, ev.post, ev)
         elif kind == "clock_jump":
             pass
@@ -348,6 +352,17 @@ class Checker(CommandMixin):
         failed = [e for e in ev.errors if e.get("kind") == "internal_error" and e.get("conn") == ev.conn]
         if failed and self._out_of_domain(ev):
             return
+        dropped = [e for e in ev.errors if e.get("kind") == "server_drop" and e.get("conn") == ev.conn
+                   and not e.get("expected")]
+        if dropped and not failed:
+            # the server hung up on a well-formed command: the property that owns the
+            # (last) command is broken as well as C17
+            last = msgs[-1] if msgs else {}
+            owner = {"close": "C08", "release": "C07", "claim": "C07", "allocate": "C04", "open": "C01",
+                     "add": "C02"}.get(last.get("type") if isinstance(last, dict) else None)
+            if owner:
+                self.v(owner, "command-completes", ev, "the server dropped the connection instead of answering %s"
+                       % (last.get("type"),))
         if not failed:
             self._acknowledged_effects_stored(ev, subs, msgs)
         for i, sub in enumerate(subs):
